@@ -90,7 +90,7 @@ func c02Prop(st *CaseStats, fam int) func(t *rapid.T) {
 		sc := GenScenario(t)
 		cfg := CaseCfg{Family: fam, MaxDocs: 6, MaxIn: 3, HoldAny: true}
 		depth := 1
-		if fam == FamSmall {
+		if fam == FamSmall || fam == FamMid {
 			depth = rapid.SampledFrom([]int{1, 1, 2, 3}).Draw(t, "depth")
 		} else {
 			cfg.MaxIn = 2
@@ -151,4 +151,10 @@ func TestC02Wide(t *testing.T) {
 	st := NewStats("C02Wide", c02Rule)
 	defer st.Flush()
 	rapid.Check(t, c02Prop(st, FamWide))
+}
+
+func TestC02Mid(t *testing.T) {
+	st := NewStats("C02Mid", c02Rule)
+	defer st.Flush()
+	rapid.Check(t, c02Prop(st, FamMid))
 }
